@@ -89,6 +89,8 @@ WHITELIST = [
     ("ordered_inner_map_both_unique", ["arr", "arr", "arr", "arr"]),
     ("apply_spans_index_of_min_indexed", ["arr", "arr", "arr", "opt_arr"]),
     ("apply_spans_index_of_max_indexed", ["arr", "arr", "arr", "opt_arr"]),
+    ("merge_journalled_entries", ["arr", "arr", "barr", "arr", "arr", "arr"]),
+    ("merge_indexed_journalled_entries_count", ["arr", "arr", "barr", "arr", "arr"]),
 ]
 
 LEAN_T = {"int": "Int", "bool": "Bool", "arr": "List Int", "barr": "List Bool", "opt_arr": "Option (List Int)",
